@@ -194,6 +194,17 @@ pub fn schema_cases(si: &gen::SchemaInfo, rng: &mut Rng, thorough: bool, out: &m
         while !t.is_char_boundary(cut) { cut -= 1; }
         introspect_case(&format!("{}:policy{}:truncated", si.name, mode), &t[..cut], 20, rng, out);
         introspect_case(&format!("{}:policy{}:garbage", si.name, mode), &format!("{}}}", t), 20, rng, out);
+        // long runs of 2-, 3- and 4-byte characters at every alignment: whatever block size a reader-side buffer uses (up to 64 KiB),
+        // some character straddles a block boundary - the text parsed through a reader is the text parsed from the string
+        if mode == 0 && si.name == "names" {
+            for (ch, width) in [("\u{e9}", 2usize), ("\u{20ac}", 3), ("\u{1F600}", 4)] {
+                for shift in 0..width {
+                    let mut w = v.clone();
+                    w["__schema"]["description"] = json!(format!("{}{}", "x".repeat(shift), ch.repeat(140_000 / width)));
+                    introspect_case(&format!("{}:policy{}:wide{}-{}", si.name, mode, width, shift), &w.to_string(), 4, rng, out);
+                }
+            }
+        }
         // text that is not JSON only because of what precedes or follows the value: a byte order mark, other invisible
         // characters, a second value - rejected by the string entry point, so rejected through every reader
         if mode == 0 {
